@@ -102,7 +102,12 @@ func (t *TransactionManager) GetTransaction(id string) (*Transaction, error) {
 func (t *TransactionManager) Rollback(ctx context.Context, trans *Transaction) error {
 	t.tmMutex.Lock()
 	defer t.tmMutex.Unlock()
-	_, err := t.rollbacker.TransactionRollback(ctx, trans, false)
+	// the timer fires without holding the lock: the transaction might have been
+	// confirmed or canceled in the meantime, in which case there is nothing to roll back.
+	if t.transaction != trans {
+		return fmt.Errorf("transaction %s is no longer ongoing", trans.transactionId)
+	}
+	_, err := t.rollbacker.TransactionRollback(ctx, trans.GetRollbackTransaction(), false)
 
 	t.transaction = nil
 
